@@ -255,6 +255,13 @@ def access(case, res):
                     v2 = new_peer()
                     S.request(v2, "authenticate", {"user": nm, "password": npw if creds.users[nm]["password"] != npw else token(rng)})
                     S.settle()
+                    cur = creds.users[nm]["password"]
+                    if len(cur) > 9:
+                        # ... and a password that agrees with the current one in its first 8 characters only opens nothing
+                        v3 = new_peer()
+                        S.request(v3, "authenticate", {"user": nm, "password": cur[:8] + "#" + cur[9:][::-1]})
+                        S.settle()
+                        S.end(v3)
                     S.end(v)
                     S.end(v2)
             else:
